@@ -78,7 +78,12 @@ Progs == <<
     [t |-> "for", tag |-> "tablerow", var |-> X, coll |-> R13, lim |-> Lit(IntV(1)), body |-> <<>>]>>,
   (* 22 long chunks of text without any white space (inline data), after an object, between tablerow cells, at the end *)
   <<Ob(Var(X)), T(LongWord), Ob(Var(X)),
-    [t |-> "for", tag |-> "tablerow", var |-> X, coll |-> R13, cols |-> Lit(IntV(2)), body |-> <<T(LongWord), Ob(Var(X))>>], T(LongWord)>>
+    [t |-> "for", tag |-> "tablerow", var |-> X, coll |-> R13, cols |-> Lit(IntV(2)), body |-> <<T(LongWord), Ob(Var(X))>>], T(LongWord)>>,
+  (* 23 constructs registered by the embedding program (a tag that writes, one that writes nothing, a block): their output
+        goes through the same writer, and its failure is the render's *)
+  <<T(<<104, 101, 108, 108, 111, 32>>), [t |-> "xargs", s |-> <<107>>], T(<<32, 119, 111, 114, 108, 100, 44, 32>>),
+    [t |-> "xset", name |-> <<113>>, e |-> Lit(IntV(1))], T(<<97, 98>>),
+    [t |-> "xblock", times |-> 2, body |-> <<Ob(Var(X)), T(<<45>>)>>], [t |-> "xargs", s |-> <<>>], T(<<33>>)>>
 >>
 Env2 == << <<X, Str(<<88>>)>>, <<<<108>>, Arr(<<IntV(1), Str(<<50>>), Nil, IntV(3)>>)>>, <<<<101>>, Arr(<<>>)>> >>
 Cx == [Cx0 EXCEPT !.pol = [Intended EXCEPT !.flushErr = FlushPolicy], !.path = TopPath, !.cache = << <<INC, IncBody>> >>]
